@@ -40,7 +40,7 @@ class SetEncoder(encoder.SetEncoder):
                             '%s components for Choice at %r' % (len(names) and 'Multiple ' or 'None ', component))
 
                     component = component[names[0]]
-                    asn1Spec = asn1Spec[names[0]]
+                    asn1Spec = asn1Spec.componentType[names[0]].asn1Object
 
                 return asn1Spec.tagSet
 
